@@ -228,6 +228,50 @@ func genC01(c *Ctx) {
 			c.checkBoolean(t, expr, A)
 		}
 	}
+	// (g) twins: two sub-expressions over the same three terms, every pair, under AND / OR and under a fresh term
+	tw := twinTrees([]string{"MIT", "ISC", "Apache-2.0"})
+	subs := subsets([]string{"MIT", "ISC", "Apache-2.0"})
+	for _, E := range tw {
+		for _, F := range tw {
+			for _, op := range []byte{'A', 'O'} {
+				t := &Tree{Op: op, L: E, R: F}
+				expr := t.render(c.rng.Intn(2), c.rng)
+				c.count("twin_pairs")
+				for _, A := range subs {
+					c.checkBoolean(t, expr, A)
+				}
+				if c.rng.Intn(4) == 0 || c.thorough() {
+					w := and(leaf("Zlib"), t)
+					if c.rng.Intn(2) == 0 {
+						w = or(t, and(leaf("Zlib"), leaf("0BSD")))
+					}
+					we := w.render(0, c.rng)
+					for _, A := range subs {
+						c.checkBoolean(w, we, append([]string{"Zlib"}, A...))
+					}
+				}
+			}
+		}
+	}
+	// four terms: seeded pairs
+	tw4 := twinTrees([]string{"MIT", "ISC", "Zlib", "LicenseRef-x"})
+	subs4 := subsets([]string{"MIT", "ISC", "Zlib", "LicenseRef-x"})
+	n4 := 1500
+	if c.thorough() {
+		n4 = 20000
+	}
+	for k := 0; k < n4; k++ {
+		E, F := tw4[c.rng.Intn(len(tw4))], tw4[c.rng.Intn(len(tw4))]
+		op := byte('A')
+		if c.rng.Intn(2) == 0 {
+			op = 'O'
+		}
+		t := &Tree{Op: op, L: E, R: F}
+		expr := t.render(0, c.rng)
+		for q := 0; q < 3; q++ {
+			c.checkBoolean(t, expr, subs4[c.rng.Intn(len(subs4))])
+		}
+	}
 	// (f) seeded deep trees (6..12 leaves, nesting depth 3+), seeded assignments
 	nd := 1500
 	if c.thorough() {
@@ -1185,6 +1229,96 @@ func genC07(c *Ctx) {
 					r := c.S(e.s, ext)
 					if base == "T" && r != unknown && r != "T" {
 						c.fail("Satisfies", map[string]interface{}{"expression": e.s, "allowed": A, "allowed_extended": ext}, "T then "+r, "T", "adding valid entries never turns satisfied into not satisfied")
+					}
+				}
+			}
+		}
+	}
+	// ---- the range table as the source of entries: a matching entry stays a matching entry whatever else is on the
+	// list and wherever it stands (early exits keyed on table order, caches keyed on prefixes of ids)
+	var firsts []string   // first id of every version group, in table order
+	famOfIdx := map[int]int{}
+	for fi, fam := range tRanges {
+		for _, g := range fam {
+			if len(g) > 0 && isIDWord(g[0]) && !strings.HasSuffix(g[0], "-or-later") {
+				famOfIdx[len(firsts)] = fi
+				firsts = append(firsts, g[0])
+			}
+		}
+	}
+	win := 14
+	if c.thorough() {
+		win = 60
+	}
+	for i, x := range firsts {
+		// neighbours in table order, and ids of which x is a prefix or that are a prefix of x
+		var zs []string
+		for j := i - win; j <= i+win; j++ {
+			if j >= 0 && j < len(firsts) && j != i {
+				zs = append(zs, firsts[j])
+			}
+		}
+		for j, z := range firsts {
+			if j != i && (strings.HasPrefix(z, x) || strings.HasPrefix(x, z)) {
+				zs = append(zs, z)
+			}
+		}
+		for _, z := range uniq(zs) {
+			for _, A := range [][]string{{x, z}, {z, x}, {z, x, z + "+"}} {
+				c.count("table_neighbour_lists")
+				if r := c.S(x, A); r != unknown && r != "T" {
+					c.fail("Satisfies", map[string]interface{}{"expression": x, "allowed": []string{x}, "allowed_extended": A}, "T then "+r, "T", "adding valid entries never turns satisfied into not satisfied (x matches itself)")
+				}
+			}
+		}
+	}
+	// within a family: x+ is satisfied by a later version y alone; a third member z must not change that
+	for _, fam := range tRanges {
+		var ids []string
+		for _, g := range fam {
+			if len(g) > 0 && isIDWord(g[0]) && !strings.HasSuffix(g[0], "-or-later") {
+				ids = append(ids, g[0])
+			}
+		}
+		for xi, x := range ids {
+			for yi := xi; yi < len(ids); yi++ {
+				y := ids[yi]
+				for _, z := range ids {
+					if z == y {
+						continue
+					}
+					if !c.thorough() && len(ids) > 6 && c.rng.Intn(3) != 0 {
+						continue
+					}
+					for _, A := range [][]string{{y, z}, {z, y}} {
+						c.count("family_triples")
+						if r := c.S(x+"+", A); r != unknown && r != "T" {
+							c.fail("Satisfies", map[string]interface{}{"expression": x + "+", "allowed": []string{y}, "allowed_extended": A}, "T then "+r, "T", "adding valid entries never turns satisfied into not satisfied (y is the same or a later version of x)")
+						}
+					}
+				}
+			}
+		}
+	}
+	// long lists (more than 8 and more than 16 entries) that hold several variants of one id: X, X+, X WITH e1, X WITH e2
+	for _, x := range []string{"MIT", "ISC", "Zlib", "BSD-3-Clause", "Apache-2.0", "GPL-2.0-only", "LicenseRef-v"} {
+		variants := []string{x}
+		if !strings.HasPrefix(x, "LicenseRef-") {
+			variants = append(variants, x+"+", x+" WITH Classpath-exception-2.0", x+" WITH Bison-exception-2.2", x+"+ WITH Classpath-exception-2.0")
+		} else {
+			variants = append(variants, "DocumentRef-d:"+x, "DocumentRef-e:"+x)
+		}
+		for _, target := range variants {
+			for _, n := range []int{3, 9, 17, 40} {
+				for rep := 0; rep < 3; rep++ {
+					A := append([]string{}, variants...)
+					for len(A) < n {
+						A = append(A, c.rng.Pick(fillers))
+					}
+					A = c.rng.Shuffle(A)
+					c.count("variant_lists")
+					if r := c.S(target, A); r != unknown && r != "T" {
+						c.fail("Satisfies", map[string]interface{}{"expression": target, "allowed": []string{target}, "allowed_extended": A}, "T then "+r, "T", "adding valid entries never turns satisfied into not satisfied (the list contains the term itself)")
 					}
 				}
 			}
